@@ -171,15 +171,15 @@ func runC01(c *Ctx) {
 		plaintext := resultValue(open, 0)
 		var accept []edge
 		nVerify := 0
-		for _, v := range callsIn(fn, keyIs(keyVerify)) {
-			cc := v.Common()
-			if len(cc.Args) < 2 || plaintext == nil || stripConv(cc.Args[0]) != plaintext {
+		for _, site := range verifySitesIn(fn, 2) {
+			v := site.Call
+			if plaintext == nil || stripConv(site.Data) != plaintext {
 				c.fail("D2", fnName(fn)+"+Verify.data", posOf(v), "Verify is not over the plaintext just opened")
 				continue
 			}
 			// signature from the headers
 			sigOK := false
-			if ap, ok := accessPath(cc.Args[1]); ok && strings.HasSuffix(ap, ".Sig") {
+			if ap, ok := accessPath(site.Sig); ok && strings.HasSuffix(ap, ".Sig") {
 				sigOK = true
 			}
 			c.check(sigOK, "D2", fnName(fn)+"+Verify.sig", posOf(v), "signature taken from the opened headers", "the signature verified is not the headers' Sig field")
@@ -188,7 +188,7 @@ func runC01(c *Ctx) {
 				// follow only inside the package, up to the exported entry points
 				f := p.Parent()
 				return fnPkg(f).Path() == pkgSecret && (f.Object() == nil || !f.Object().Exported())
-			}}, cc.Value)
+			}}, site.Key)
 			badRoot, okKey := rootsAllowed(krs, func(r string) bool {
 				if strings.HasPrefix(r, "base:") || r == "const:nil" || r == "call:"+keyUnmEd {
 					return true
@@ -201,18 +201,20 @@ func runC01(c *Ctx) {
 			})
 			okKey = okKey && krs["call:"+keyUnmEd] && krs.hasSuffixRoot(".DevicePk")
 			c.check(okKey, "D2", fnName(fn)+"+Verify.key", posOf(v), "verifying key is decoded from the headers' DevicePk", fmt.Sprintf("verifying key does not (only) come from the opened headers' DevicePk (root %q; roots %v)", badRoot, krs.list()))
-			okv := boolVerdict(v)
-			if okv == nil {
+			if len(site.Verdicts) == 0 || (site.Via == nil && boolVerdict(v) == nil) {
 				c.fail("D2", fnName(fn)+"+Verify.ok", posOf(v), "Verify result discarded")
 				continue
 			}
-			for _, vv := range []ssa.Value{okv, errVerdict(v)} {
+			for _, vv := range site.Verdicts {
 				if r := rejectOnFailure(fn, vv); !r.OK {
 					c.fail("D2", fnName(fn)+"+Verify.reject", posOf(v), "Verify verdict: %s", r.Why)
 				}
 			}
+			if site.Via == nil && errVerdict(v) == nil {
+				c.fail("D2", fnName(fn)+"+Verify.reject", posOf(v), "Verify verdict: %s", "verdict result is discarded (never extracted)")
+			}
 			nVerify++
-			accept = append(accept, edgesOfVerdict(okv).Accept...)
+			accept = append(accept, edgesOfVerdict(site.Verdicts[0]).Accept...)
 		}
 		fe, order := flagFalseEdges(fn)
 		for _, ff := range order {
